@@ -16,7 +16,7 @@ def parse(line):
     if t[1] != 'OK': return lam, None
     v = [int(x) for x in t[2:]]
     d = dict(n=v[0], a_in=v[1] / 2.0**v[2], amax=v[3] / 2.0**v[4], N=v[5], k=v[6], a_bk=v[7] / 2.0**v[8], amax_bk=v[9] / 2.0**v[10], l=v[11], Bgbit=v[12], Bg=v[13], halfBg=v[14],
-             maskMod=v[15], kpl=v[16], offset=v[17], t=v[18], basebit=v[19], ext_n=v[20], h=v[23:])
+             maskMod=v[15], kpl=v[16], offset=v[17], t=v[18], basebit=v[19], ext_n=v[20], ext_a=v[21] / 2.0**v[22], h=v[23:])
     return lam, d
 
 def run(ctx):
@@ -82,6 +82,10 @@ def run(ctx):
                 and d['offset'] == (sum(1 << (32 - (i + 1) * d['Bgbit']) for i in range(d['l'])) * d['halfBg']) % 2**32
                 and d['h'] == [vlib.w32(1 << (32 - (i + 1) * d['Bgbit'])) for i in range(d['l'])]):
             ctx.report('structural', 'lambda=%d: structural constraint or derived field violated: %s' % (lam, line), {'lambda': lam, 'observed': line})
+        # the LWE parameters of extracted samples are a field of the returned set too (tgsw_params->tlwe_params->extracted_lweparams): dimension k*N (above),
+        # noise level that of the ring samples they are extracted from
+        if d['ext_a'] != d['a_bk']:
+            ctx.report('set-field-ext_alpha_min', 'lambda=%d: alpha_min of the extracted LWE parameters is %r, the noise level of the ring parameters they are derived from is %r' % (lam, d['ext_a'], d['a_bk']), {'lambda': lam, 'field': 'extracted_lweparams.alpha_min', 'observed': d['ext_a'], 'expected': d['a_bk'], 'line': line})
         # 12-sigma margin with F1-F3 in floating point (the theorem does it exactly in Q)
         Vbr = d['n'] * (d['k'] + 1) * d['l'] * d['N'] * ((d['Bg']**2 + 2) / 12.0) * d['a_bk']**2 + d['n'] / 2.0 * (1 + d['k'] * d['N'] / 2.0) * 2.0**(-2 * d['l'] * d['Bgbit']) / 12
         Vks = d['k'] * d['N'] * d['t'] * ((2**d['basebit'] - 1) / 2.0**d['basebit']) * d['a_in']**2 + d['k'] * d['N'] / 2.0 * 2.0**(-2 * d['t'] * d['basebit']) / 12
